@@ -625,13 +625,13 @@ pub fn check_request(ctx: &mut Ctx, rng: &mut Rng, corpus: &Corpus, nodes: &[Nod
                             ctx.report.violation("model", "C14:lean-composite-eviction-visible", format!("with eviction {} vs without {}", &mt[..mt.len().min(300)], &m[..m.len().min(300)]), case_json(&c, parts, "final"));
                         }
                     }
-                    // a single top-level terms ordered by _key ascending: exact under truncation (Lean decides applicability)
+                    // a single top-level terms ordered by _key (ascending or descending): exact under truncation (Lean decides applicability)
                     if nodes.len() == 1 && matches!(nodes[0].agg, Agg::Terms { .. }) && !mparts.is_empty() {
                         let ka = ctx.model.ask(&format!("C14 keyasc {} {}", nodes_to_lean(nodes, true, &ranks), parts_to_lean(&corpus.docs, &mparts, &ranks)));
                         if ka == "same" {
-                            ctx.report.count("model:terms-key-asc-exact-compared");
+                            ctx.report.count("model:terms-key-order-exact-compared");
                         } else if ka != "n/a" {
-                            ctx.report.violation("model", "C14:lean-terms-key-asc-not-exact", ka[..ka.len().min(400)].to_string(), case_json(&c, parts, "final"));
+                            ctx.report.violation("model", "C14:lean-terms-key-order-not-exact", ka[..ka.len().min(400)].to_string(), case_json(&c, parts, "final"));
                         }
                     }
                     if m != mine && srs == srs_pv && !corpus.docs.is_empty() {
